@@ -115,6 +115,7 @@ class Symex:
         self.facts = facts
         self.concrete_iters = concrete_iters
         self.assume_reflexive = False
+        self.live_iter_mut = False       # iter_mut over a collection of concrete length hands out references to the elements themselves (no havoc of the collection)
         self.fold_ground_eq = False      # structural == on fully concrete aggregates (only sound where no lazily evaluated closure can still mutate them)
         self.models = dict(DEFAULT_MODELS)
         if models:
@@ -136,8 +137,12 @@ class Symex:
         self.steps = 0
 
     # ------------------------------------------------------------------ entry
-    def run(self, fn, args=None, inst=None):
+    def run(self, fn, args=None, inst=None, mem=None):
+        """mem: optional initial contents of the symbolic memory, {("arg", i): value} = what the reference passed as argument i points to."""
         st = St()
+        if mem:
+            for k, v in mem.items():
+                st.mem[("S", k)] = v
         if args is None:
             args = [("arg", i) for i in range(1, fn.arg_count + 1)]
         self.npaths = 0
@@ -403,6 +408,10 @@ class Symex:
                 fs = list(old[1])
                 fs[e[1][1]] = self.update(st, fs[e[1][1]], path[1:], val)
                 return ("array", tuple(fs))
+            if old[0] == "call" and old[1] == "vec!" and e[1][0] == "const" and old[2] and old[2][0][0] == "array" and 0 <= e[1][1] < len(old[2][0][1]):
+                fs = list(old[2][0][1])
+                fs[e[1][1]] = self.update(st, fs[e[1][1]], path[1:], val)
+                return ("call", "vec!", (("array", tuple(fs)),))
             return ("upd", old, ("i", e[1]), self.update(st, self.project(st, old, e), path[1:], val))
         if k == "downcast":
             if old[0] == "adt" and old[2] == e[2]:
@@ -999,6 +1008,50 @@ def m_swap(ex, st, call, args):
     return _ret(st, ("tuple", ()))
 
 
+def m_slice_swap(ex, st, call, args):
+    """<[T]>::swap(&mut s, i, j) on an array of concrete length with constant indices"""
+    r, i, j = args
+    if i[0] != "const" or j[0] != "const":
+        return NotImplemented
+    cur = ex.deref_val(st, r)
+    if cur[0] != "array" or not (0 <= i[1] < len(cur[1]) and 0 <= j[1] < len(cur[1])):
+        return NotImplemented
+    items = list(cur[1])
+    items[i[1]], items[j[1]] = items[j[1]], items[i[1]]
+    _set_behind(ex, st, r, ("array", tuple(items)))
+    return _ret(st, ("tuple", ()))
+
+
+def m_iter_mut(ex, st, call, args):
+    """<[T]>::iter_mut(&mut s) as a pure iterator term that keeps the live reference (opt-in: Symex.live_iter_mut, with concrete_iters)"""
+    if not (ex.live_iter_mut and ex.concrete_iters) or len(args) != 1 or args[0][0] != "ref":
+        return NotImplemented
+    from . import citer
+    if citer._array_items(ex, st, args[0]) is None:
+        return NotImplemented
+    return _ret(st, ("call", call.path, (args[0],)))
+
+
+def m_into_iter_live(ex, st, call, args):
+    """IntoIterator::into_iter of a live iter_mut term is the identity (keeps the element references alive)"""
+    def has_live(t, d=0):
+        if not isinstance(t, tuple) or d > 6:
+            return False
+        if t and t[0] == "call" and len(t) == 3 and isinstance(t[1], str) and t[1].endswith("::iter_mut"):
+            return True
+        if t and t[0] == "call" and len(t) == 3:
+            return any(has_live(x, d + 1) for x in t[2])
+        return False
+    if ex.live_iter_mut and len(args) == 1 and has_live(args[0]):
+        return _ret(st, args[0])
+    if ex.live_iter_mut and ex.concrete_iters and len(args) == 1 and args[0][0] == "ref" and args[0][2] == "mut":
+        # `for x in &mut vec` over a collection of concrete length
+        from . import citer
+        if citer._array_items(ex, st, args[0]) is not None:
+            return _ret(st, ("call", call.path, (args[0],)))
+    return NotImplemented
+
+
 def m_replace(ex, st, call, args):
     """core::mem::replace(&mut a, v) -> old a"""
     a, v = args
@@ -1131,6 +1184,10 @@ def m_iter_pure(ex, st, call, args):
             a = ex.deref_val(st, a)
         if i > 0 and ex.concrete_iters and a[0] == "closure":
             # keep the closure's captured `&mut` references alive: a concrete iterator may run the closure later, with effects
+            vals.append(a)
+            continue
+        if i == 0 and ex.live_iter_mut and ex.concrete_iters and a[0] == "call":
+            # an adaptor over a live iter_mut keeps the element references (no snapshot)
             vals.append(a)
             continue
         vals.append(ex.canon(st, a))
@@ -1428,6 +1485,9 @@ DEFAULT_MODELS = {
     "alloc::vec::Vec::<T>::new": m_vec_new,
     "alloc::vec::Vec::<T>::with_capacity": m_vec_new,
     "alloc::vec::Vec::<T, A>::push": m_vec_push,
+    "core::slice::<impl [T]>::swap": m_slice_swap,
+    "core::slice::<impl [T]>::iter_mut": m_iter_mut,
+    "core::iter::traits::collect::IntoIterator::into_iter": m_into_iter_live,
     "core::slice::<impl [T]>::is_empty": m_is_empty,
     "core::slice::<impl [T]>::get_unchecked": m_get_unchecked,
     "core::slice::<impl [T]>::split_last": m_split("last"),
@@ -1448,7 +1508,6 @@ DEFAULT_MODELS = {
     "core::array::<impl [T; N]>::map": m_array_map,
     "alloc::slice::<impl [T]>::sort": m_sort,
     "core::slice::<impl [T]>::sort_unstable": m_sort,
-    "core::iter::traits::collect::IntoIterator::into_iter": lambda ex, st, call, args: NotImplemented,
     "alloc::boxed::Box::<T>::new_uninit": m_box_new_uninit,
     "alloc::boxed::box_assume_init_into_vec_unsafe": m_vec_macro,
 }
